@@ -3,6 +3,7 @@
 // Engines:
 //
 //	ctl/*      controlled schedules of the instrumented ringz copy (shim binary), porcupine
+//	round      controlled one-kind rounds (only pushers / only poppers, 2..6 callers): somebody succeeds
 //	sweep      bounded-preemption sweep of tiny fixed programs (thorough)
 //	free/*     free-running short histories under the race detector, porcupine
 //	stress/*   long producer/consumer runs under the race detector, streaming monitors
@@ -35,6 +36,7 @@ type config struct {
 	ReqCap, Cap int
 	SeekK       int64 // -1: no seek
 	Rot, Fill   int
+	ViaInit     bool // built with "var r SyncRing; r.Init(n)" instead of NewSync(n)
 	Family      string
 	Threads     [][]opSpec
 	Strategy    string
@@ -45,7 +47,11 @@ type config struct {
 
 func (c config) String() string {
 	var b strings.Builder
-	fmt.Fprintf(&b, "reqcap=%d cap=%d seek=%d rot=%d fill=%d family=%s sched=%s/%d/%d;", c.ReqCap, c.Cap, c.SeekK, c.Rot, c.Fill, c.Family, c.Strategy, c.Depth, c.Sticky)
+	ctor := "NewSync"
+	if c.ViaInit {
+		ctor = "Init"
+	}
+	fmt.Fprintf(&b, "%s reqcap=%d cap=%d seek=%d rot=%d fill=%d family=%s sched=%s/%d/%d;", ctor, c.ReqCap, c.Cap, c.SeekK, c.Rot, c.Fill, c.Family, c.Strategy, c.Depth, c.Sticky)
 	for i, t := range c.Threads {
 		fmt.Fprintf(&b, " T%d:", i)
 		for _, o := range t {
@@ -61,12 +67,12 @@ func (c config) String() string {
 
 // setup builds the ring in its initial configuration and returns the initial content.
 func setup(c *config) (*ringz.SyncRing[int], []int64, bool) {
-	r := ringz.NewSync[int](c.ReqCap)
+	r := newRing(c.ReqCap, c.ViaInit)
 	c.Cap = r.Cap()
 	seeked := false
 	if c.SeekK >= 0 {
 		if ok, _ := ringseek.Usable(c.ReqCap); ok {
-			ringseek.Seek(&r, uint32(c.SeekK))
+			ringseek.Seek(r, uint32(c.SeekK))
 			seeked = true
 		} else {
 			c.SeekK = -1
@@ -83,7 +89,18 @@ func setup(c *config) (*ringz.SyncRing[int], []int64, bool) {
 			init = append(init, int64(v))
 		}
 	}
-	return &r, init, seeked
+	return r, init, seeked
+}
+
+// newRing: the two ways of constructing a ring, NewSync(n) and Init(n) on a zero value.
+func newRing(reqCap int, viaInit bool) *ringz.SyncRing[int] {
+	if viaInit {
+		r := new(ringz.SyncRing[int])
+		r.Init(reqCap)
+		return r
+	}
+	r := ringz.NewSync[int](reqCap)
+	return &r
 }
 
 // do performs one client operation on the ring and records it.
@@ -251,6 +268,7 @@ func genConfig(rng *ev.Rand, maxThreads, maxOps, maxTotal int) config {
 		}
 		c.SeekK = (base + int64(rng.Range(-2*c.Cap, 2*c.Cap))) & 0xffffffff
 	}
+	c.ViaInit = rng.Chance(1, 4)
 	return c
 }
 
@@ -258,6 +276,11 @@ func genConfig(rng *ev.Rand, maxThreads, maxOps, maxTotal int) config {
 // coverage. It returns false if a violation was reported.
 func judge(c *ev.Case, cfg config, init []int64, ops []hist.Op, extra string) bool {
 	var overl, okPush, okPop, failStrict, failExcused int64
+	// what the model decides strictly (operations nothing overlapped), per clause
+	var quiet struct {
+		pushOK, pushFull, popOK, popEmpty, length, lenBusy int64
+		emptyT, emptyF, fullT, fullF                       int64
+	}
 	for _, o := range ops {
 		if o.Overlapped {
 			overl++
@@ -266,18 +289,26 @@ func judge(c *ev.Case, cfg config, init []int64, ops []hist.Op, extra string) bo
 		case "Push", "PushWait":
 			if o.OK {
 				okPush++
+				if !o.Overlapped {
+					quiet.pushOK++
+				}
 			} else if o.Overlapped {
 				failExcused++
 			} else {
 				failStrict++
+				quiet.pushFull++
 			}
 		case "Pop", "PopWait":
 			if o.OK {
 				okPop++
+				if !o.Overlapped {
+					quiet.popOK++
+				}
 			} else if o.Overlapped {
 				failExcused++
 			} else {
 				failStrict++
+				quiet.popEmpty++
 			}
 		case "Len":
 			if o.Out < 0 || o.Out > int64(cfg.Cap) {
@@ -285,8 +316,39 @@ func judge(c *ev.Case, cfg config, init []int64, ops []hist.Op, extra string) bo
 				c.Failf("len-range", "Len() = %d outside [0, Cap()=%d]", o.Out, cfg.Cap)
 				return false
 			}
+			if o.Overlapped {
+				quiet.lenBusy++
+			} else {
+				quiet.length++
+			}
+		case "IsEmpty":
+			if !o.Overlapped {
+				if o.OK {
+					quiet.emptyT++
+				} else {
+					quiet.emptyF++
+				}
+			}
+		case "IsFull":
+			if !o.Overlapped {
+				if o.OK {
+					quiet.fullT++
+				} else {
+					quiet.fullF++
+				}
+			}
 		}
 	}
+	c.Add("quiet_push_ok", quiet.pushOK)
+	c.Add("quiet_push_refused", quiet.pushFull)
+	c.Add("quiet_pop_ok", quiet.popOK)
+	c.Add("quiet_pop_refused", quiet.popEmpty)
+	c.Add("quiet_len", quiet.length)
+	c.Add("busy_len", quiet.lenBusy)
+	c.Add("quiet_isempty_true", quiet.emptyT)
+	c.Add("quiet_isempty_false", quiet.emptyF)
+	c.Add("quiet_isfull_true", quiet.fullT)
+	c.Add("quiet_isfull_false", quiet.fullF)
 	c.Add("ops", int64(len(ops)))
 	c.Add("ops_overlapped", overl)
 	c.Add("push_ok", okPush)
@@ -320,7 +382,29 @@ func roundCheck(c *ev.Case, cfg config, ops []hist.Op, nThreadOps int) bool {
 			}
 		}
 	}
+	single := 0 // calls made through the single-try variants PushWait(v, 0) / PopWait(0)
+	for _, t := range cfg.Threads {
+		for _, o := range t {
+			if o.Kind == "PushWait" || o.Kind == "PopWait" {
+				single++
+			}
+		}
+	}
 	c.Add("rounds", 1)
+	if cfg.Family == "round-push" {
+		c.Add("rounds_push", 1)
+	} else {
+		c.Add("rounds_pop", 1)
+	}
+	c.Add(fmt.Sprintf("rounds/%d-callers", len(cfg.Threads)), 1)
+	if single == nThreadOps {
+		c.Add("rounds_all_single_try_wait", 1)
+	} else if single > 0 {
+		c.Add("rounds_mixed_single_try_wait", 1)
+	}
+	if seen == nThreadOps && succ < seen {
+		c.Add("rounds_with_a_refused_call", 1) // the interleaving really made callers collide
+	}
 	if seen == nThreadOps && succ == 0 {
 		c.Witness = map[string]any{"config": cfg.String(), "history": hist.Render(ops)}
 		c.Failf("round-nobody-succeeds", "%s: %d concurrent calls on a ring with enough room/elements and none succeeded", cfg.Family, seen)
@@ -330,7 +414,15 @@ func roundCheck(c *ev.Case, cfg config, ops []hist.Op, nThreadOps int) bool {
 }
 
 func controlled(c *ev.Case, cfg config, sc sched.Config) {
-	r, init, seeked := setup(&cfg)
+	var r *ringz.SyncRing[int]
+	var init []int64
+	var seeked bool
+	if !c.Guard("setup", func() { r, init, seeked = setup(&cfg) }) {
+		return
+	}
+	if cfg.ViaInit {
+		c.Add("runs_via_init", 1)
+	}
 	rec := hist.NewRecorder(len(cfg.Threads), true)
 	bodies := make([]func(), len(cfg.Threads))
 	total := 0
@@ -390,6 +482,12 @@ func controlled(c *ev.Case, cfg config, sc sched.Config) {
 func ctlCase(c *ev.Case) {
 	rng := c.Rng
 	cfg := genConfig(rng, 4, 4, 10)
+	sc := pickSched(rng, &cfg)
+	controlled(c, cfg, sc)
+}
+
+// pickSched draws the scheduling strategy of a controlled run.
+func pickSched(rng *ev.Rand, cfg *config) sched.Config {
 	sc := sched.Config{Seed: rng.Uint64(), MaxSteps: 6000}
 	switch rng.Intn(4) {
 	case 0:
@@ -410,6 +508,86 @@ func ctlCase(c *ev.Case) {
 		sc.EstSteps = n * 9
 		cfg.Strategy = "pct"
 		cfg.Depth = sc.Depth
+	}
+	return sc
+}
+
+// roundCase: the progress clause on its own. k callers of ONE kind, one call each,
+// on a ring with at least k free slots (pushers) or at least k stored values
+// (poppers): whatever the interleaving, not all of them may be refused. The callers
+// use Push/Pop or the single-try forms PushWait(v, 0)/PopWait(0) (all of them, or
+// a mixture), up to 6 of them, on rings built either way, at every fill level
+// that leaves enough room/values, rotated and near the counter wrap. The history is
+// also checked for linearizability like any other controlled run.
+func roundCase(c *ev.Case) {
+	rng := c.Rng
+	k := rng.Pick(2, 3, 4, 5, 5, 6, 6)
+	cfg := config{ReqCap: rng.Range(1, 9), SeekK: -1}
+	if cfg.ReqCap < k {
+		cfg.ReqCap = k
+	}
+	push := rng.Bool()
+	variant := rng.Intn(3) // 0: Push/Pop, 1: single-try waits, 2: per caller
+	for t := 0; t < k; t++ {
+		wait := variant == 1 || (variant == 2 && rng.Bool())
+		kind := "Pop"
+		switch {
+		case push && wait:
+			kind = "PushWait"
+		case push:
+			kind = "Push"
+		case wait:
+			kind = "PopWait"
+		}
+		cfg.Threads = append(cfg.Threads, []opSpec{{Kind: kind, Val: int64(t*100 + 1)}})
+	}
+	cfg.ViaInit = rng.Chance(1, 4)
+	var capacity int
+	if !c.Guard("Cap", func() { capacity = newRing(cfg.ReqCap, cfg.ViaInit).Cap() }) {
+		return
+	}
+	if capacity < k {
+		// the statement speaks of rings with enough room only; nothing to judge
+		c.Add("rounds_skipped_capacity_below_callers", 1)
+		return
+	}
+	cfg.Cap = capacity
+	if push {
+		cfg.Family = "round-push"
+		cfg.Fill = rng.Pick(0, capacity-k, rng.Intn(capacity-k+1))
+	} else {
+		cfg.Family = "round-pop"
+		cfg.Fill = rng.Pick(k, capacity, rng.Range(k, capacity))
+	}
+	cfg.Rot = rng.Intn(2*capacity + 1)
+	if rng.Chance(1, 3) {
+		base := int64(1) << 32
+		if rng.Chance(1, 3) {
+			base = int64(1) << 31
+		}
+		cfg.SeekK = (base + int64(rng.Range(-2*capacity, 2*capacity))) & 0xffffffff
+	}
+	sc := pickSched(rng, &cfg)
+	if rng.Chance(1, 3) {
+		// lock-step: the callers advance in turn, a few steps each, so that all of them are
+		// at the same stage of the call (the interleaving symmetric protocols fear most)
+		sc = sched.Config{Strategy: sched.Sweep, MaxSteps: 6000}
+		laps := rng.Range(1, 6)
+		for l := 0; l < laps; l++ {
+			stride := rng.Range(1, 4) // the same for everybody in this lap, now and then off by one
+			for _, t := range rng.Perm(k) {
+				cut := stride
+				if rng.Chance(1, 5) {
+					cut += rng.Pick(-1, 1)
+				}
+				if cut < 1 {
+					cut = 1
+				}
+				sc.Order = append(sc.Order, t)
+				sc.Cuts = append(sc.Cuts, cut)
+			}
+		}
+		cfg.Strategy, cfg.Depth, cfg.Sticky = "lockstep", laps, 0
 	}
 	controlled(c, cfg, sc)
 }
@@ -488,11 +666,26 @@ func freeCase(c *ev.Case) {
 		}
 		cfg.Threads = append(cfg.Threads, ops)
 	}
+	for _, t := range cfg.Threads {
+		for _, o := range t {
+			if o.Kind == "PushWaitT" || o.Kind == "PopWaitT" {
+				c.Add("free_timed_wait_calls", 1)
+			}
+		}
+	}
 	probe := ringz.NewSync[int](cfg.ReqCap)
 	cfg.Cap = probe.Cap()
 	cfg.Fill = rng.Intn(cfg.Cap + 1)
 	cfg.Rot = rng.Intn(2*cfg.Cap + 1)
-	r, init, _ := setup(&cfg)
+	cfg.ViaInit = rng.Chance(1, 4)
+	var r *ringz.SyncRing[int]
+	var init []int64
+	if !c.Guard("setup", func() { r, init, _ = setup(&cfg) }) {
+		return
+	}
+	if cfg.ViaInit {
+		c.Add("runs_via_init", 1)
+	}
 	rec := hist.NewRecorder(len(cfg.Threads), false)
 	start := make(chan struct{})
 	var wg sync.WaitGroup
@@ -691,52 +884,61 @@ var bigCaps = func() []int {
 
 func bigCapCase(c *ev.Case) {
 	req := bigCaps[c.Index%len(bigCaps)]
-	var r ringz.SyncRing[int]
-	if !c.Guard("NewSync", func() { r = ringz.NewSync[int](req) }) {
-		return
-	}
-	capacity := r.Cap()
-	c.Logf("NewSync(%d): Cap=%d", req, capacity)
-	if capacity < req {
-		c.Failf("bigcap", "NewSync(%d).Cap() = %d is smaller than the requested capacity", req, capacity)
-		return
-	}
-	bad := ""
-	c.Guard("fill/drain", func() {
-		for i := 0; i < capacity; i++ {
-			if !r.Push(i) {
-				bad = fmt.Sprintf("Push #%d returned false with nothing in flight on a ring holding %d of Cap()=%d", i, i, capacity)
-				return
-			}
-		}
-		if r.Push(-5) {
-			bad = fmt.Sprintf("Push succeeded on a ring already holding Cap()=%d values", capacity)
+	// both ways of constructing a ring: NewSync(n), and Init(n) on a zero value
+	for _, ctor := range []string{"NewSync", "Init"} {
+		var r *ringz.SyncRing[int]
+		if !c.Guard(ctor, func() { r = newRing(req, ctor == "Init") }) {
 			return
 		}
-		if r.Len() != capacity || !r.IsFull() || r.IsEmpty() {
-			bad = fmt.Sprintf("quiescent full ring: Len=%d IsFull=%v IsEmpty=%v, Cap()=%d", r.Len(), r.IsFull(), r.IsEmpty(), capacity)
-			return
+		capacity := r.Cap()
+		c.Logf("%s(%d): Cap=%d", ctor, req, capacity)
+		if capacity < req {
+			// the statement bounds the ring by Cap(), whatever its relation to the request
+			c.Add("bigcap_capacity_below_request", 1)
 		}
-		for i := 0; i < capacity; i++ {
-			v, ok := r.Pop()
-			if !ok || v != i {
-				bad = fmt.Sprintf("Pop #%d = (%d,%v) with nothing in flight, FIFO order wants (%d,true)", i, v, ok, i)
+		bad := ""
+		c.Guard("fill/drain", func() {
+			for i := 0; i < capacity; i++ {
+				if !r.Push(i) {
+					bad = fmt.Sprintf("Push #%d returned false with nothing in flight on a ring holding %d of Cap()=%d", i, i, capacity)
+					return
+				}
+			}
+			if r.Push(-5) {
+				bad = fmt.Sprintf("Push succeeded on a ring already holding Cap()=%d values", capacity)
 				return
 			}
+			if r.Len() != capacity || !r.IsFull() || r.IsEmpty() {
+				bad = fmt.Sprintf("quiescent full ring: Len=%d IsFull=%v IsEmpty=%v, Cap()=%d", r.Len(), r.IsFull(), r.IsEmpty(), capacity)
+				return
+			}
+			for i := 0; i < capacity; i++ {
+				v, ok := r.Pop()
+				if !ok || v != i {
+					bad = fmt.Sprintf("Pop #%d = (%d,%v) with nothing in flight, FIFO order wants (%d,true)", i, v, ok, i)
+					return
+				}
+			}
+			if _, ok := r.Pop(); ok || r.Len() != 0 || !r.IsEmpty() {
+				bad = fmt.Sprintf("quiescent drained ring: Len=%d IsEmpty=%v", r.Len(), r.IsEmpty())
+			}
+		})
+		if c.Failed() {
+			return
 		}
-		if _, ok := r.Pop(); ok || r.Len() != 0 || !r.IsEmpty() {
-			bad = fmt.Sprintf("quiescent drained ring: Len=%d IsEmpty=%v", r.Len(), r.IsEmpty())
+		if bad != "" {
+			c.Failf("bigcap", "%s(%d): %s", ctor, req, bad)
+			return
 		}
-	})
-	if bad != "" {
-		c.Failf("bigcap", "NewSync(%d): %s", req, bad)
-		return
+		c.Add("bigcap_cases", 1)
+		if ctor == "Init" {
+			c.Add("bigcap_cases_via_init", 1)
+		}
+		if c.WantSample() {
+			c.Sample(fmt.Sprintf("bigcap: %s(%d), Cap()=%d: filled, overflow refused, drained in FIFO order, one goroutine", ctor, req, capacity))
+		}
 	}
-	c.Add("bigcap_cases", 1)
 	c.Distinct(ev.Mix(uint64(req), 777))
-	if c.WantSample() {
-		c.Sample(fmt.Sprintf("bigcap: NewSync(%d), Cap()=%d: filled, overflow refused, drained in FIFO order, one goroutine", req, capacity))
-	}
 }
 
 // honestWrapCase (thorough): one goroutine really performs more than 2^32
@@ -812,9 +1014,9 @@ func honestWrapCase(c *ev.Case) {
 
 func main() {
 	r := ev.New("C01")
-	r.Rule("controlled: one case = (ring configuration, per-thread operation lists, schedule trace) drawn from the seed; distinct = distinct hash of configuration+program+trace among runs with at least one context switch. free-running: distinct = distinct canonical history (operations, results, order of call/return events) with at least one overlapping pair. stress: distinct parameter sets.")
+	r.Rule("controlled: one case = (ring configuration, per-thread operation lists, schedule trace) drawn from the seed; distinct = distinct hash of configuration+program+trace among runs with at least one context switch. free-running: distinct = distinct canonical history (operations, results, order of call/return events) with at least one overlapping pair. stress: distinct parameter sets. round: like controlled, programs are k callers of one kind (Push/PushWait(v,0) or Pop/PopWait(0)) with one call each on a ring with at least k free slots / stored values.")
 	r.Assume("plain (non-atomic) accesses between two atomic operations run as one indivisible step in the controlled engine; those are covered only by the race detector in the free-running engines")
-	r.Assume("controlled programs have at most 4 threads and 10 operations; free-running histories at most 8 goroutines and 22 operations")
+	r.Assume("controlled programs have at most 4 threads and 10 operations (one-kind rounds: up to 6 callers with one call each); free-running histories at most 8 goroutines and 22 operations")
 	r.Assume("a failed Push/Pop is accepted when its recorded interval intersects another operation's interval (the property's own excuse)")
 	sched.JitterOn = os.Getenv("VERIF_JITTER") == "1"
 	seekOK, why := ringseek.Usable(2)
@@ -834,6 +1036,8 @@ func main() {
 	r.Require("typed_pipe_elements", 100000)
 	nctl := r.N(60000, 3000000)
 	r.CasesProc("ctl", nctl, ev.Opt{Bin: "shim", Procs: 14}, ctlCase)
+	// the progress clause (not every caller of a one-kind round is refused), 2..6 callers, all call forms
+	r.CasesProc("round", r.N(10000, 400000), ev.Opt{Bin: "shim", Procs: 8}, roundCase)
 	if r.Thorough() || !seekOK {
 		// every case is 2^32 real push/pop pairs: no logging re-run, and only three rings in the quick tier
 		r.Cases("honest-wrap", r.N(3, 6), ev.Opt{MaxCaseSeconds: 3000, NoRerun: true, AlwaysLog: true}, honestWrapCase)
@@ -843,6 +1047,8 @@ func main() {
 	}
 	r.CasesProc("timed", r.N(160, 3000), ev.Opt{Procs: 4, Workers: 8, AlwaysLog: true, MaxCaseSeconds: 120}, timedCase)
 	r.Require("timed_rounds", 2000)
+	r.Require("timed_quiet_pushwait_ok", 300)
+	r.Require("timed_quiet_popwait_ok", 300)
 	nfree := r.N(6000, 120000)
 	r.CasesProc("free/race", nfree, ev.Opt{Bin: "race", Procs: 6, AlwaysLog: true}, freeCase)
 	r.CasesProc("free/jitter", nfree, ev.Opt{Bin: "shimrace", Procs: 6, AlwaysLog: true, Env: []string{"VERIF_JITTER=1"}}, freeCase)
@@ -859,6 +1065,29 @@ func main() {
 		}
 	}
 	r.Require("histories_checked", int64(nctl/2))
+	// progress clause: both kinds of round, every call form, up to 6 callers
+	r.Require("rounds_push", 3000)
+	r.Require("rounds_pop", 3000)
+	r.Require("rounds_all_single_try_wait", 1000)
+	r.Require("rounds_mixed_single_try_wait", 700)
+	r.Require("rounds/5-callers", 500)
+	r.Require("rounds/6-callers", 500)
+	// both constructors
+	r.Require("runs_via_init", 6000)
+	r.Require("bigcap_cases_via_init", int64(len(bigCaps)))
+	// operations nothing overlapped: the model decides them strictly (refusal only when
+	// full/empty, observers exact), in both outcomes
+	r.Require("quiet_push_ok", 100000)
+	r.Require("quiet_pop_ok", 100000)
+	r.Require("quiet_push_refused", 30000)
+	r.Require("quiet_pop_refused", 30000)
+	r.Require("quiet_len", 80000)
+	r.Require("quiet_isempty_true", 30000)
+	r.Require("quiet_isempty_false", 30000)
+	r.Require("quiet_isfull_true", 30000)
+	r.Require("quiet_isfull_false", 30000)
+	r.Require("busy_len", 5000)
+	r.Require("free_timed_wait_calls", 150)
 	r.Require("ops_overlapped", 1000)
 	r.Require("push_ok", 1000)
 	r.Require("pop_ok", 1000)
